@@ -198,6 +198,12 @@ where
         // solve for (Δx,Δz)
         // -----------
         lhs.τ = tau_num / tau_den;
+
+        // a vanishing or overflowing denominator gives a non-finite Δτ,
+        // which would make every component of the step non-finite
+        if !lhs.τ.is_finite() {
+            return false;
+        }
         lhs.x.waxpby(T::one(), x1, lhs.τ, x2);
         lhs.z.waxpby(T::one(), z1, lhs.τ, z2);
 
